@@ -197,10 +197,11 @@ let coq inp obs =
     let maxin = n_of_hex maxin and maxout = n_of_hex maxout and ro = (ro = "1") in
     let obtoks = if obs = "-" then [] else split_ws obs in
     let cur = ref (init_pset maxin maxout ro) in
-    let terms = ref [] in
+    let terms = ref [] and big = ref false in
     let rec go ops obsl = match ops, obsl with
       | optok :: ops', ob :: obsl' when ob <> "hang" && ob <> "panic" ->
         let (k, _, o, _) = parse_op optok in
+        if int_of_n k > 1000 then big := true;   (* an hour of decay is too slow under vm_compute: such cases are not rendered *)
         (match String.split_on_char '|' ob with
          | e :: ms :: counters :: plist' :: _ ->
            let s1 = pset_of maxin maxout ro (parse_snap counters plist') (parse_msgs ms) in
@@ -215,7 +216,7 @@ let coq inp obs =
         go ops' obsl'
       | _ -> () in
     go optoks obtoks;
-    if !terms = [] then None else Some (String.concat "\n  && " (List.rev !terms))
+    if !terms = [] || !big then None else Some (String.concat "\n  && " (List.rev !terms))
   | _ -> None
 
 let () = run_driver ~coq check
